@@ -98,7 +98,7 @@ def corr (prop unitsPath runPath : String) : IO UInt32 := do
                   st := { st with msgs := st.msgs.push s!"MISMATCH {name} f64 comp {j} in {ins} model {m.toBits} glm {g.toBits}" }
               match sp with
               | some (f, ks) =>
-                if f.kind == .poly || f.kind == .syn then
+                if (f.kind == .poly || f.kind == .syn) && !f.treeMode then
                   let s := (f.spec ks j).eval f64Ops env
                   let g := if f.isPlain then g else (f.post ks (fun i => .lit (Float.ofBits (outs.getD i 0).toUInt64).toInt64.toInt 1) j).eval f64Ops env
                   st := { st with specChecked := st.specChecked + 1 }
@@ -171,9 +171,10 @@ def spec (prop unitsPath : String) (seed : UInt64) : IO UInt32 := do
           let env := mkEnv xs
           for j in [0:f.nOut ks] do
             if found then break
-            if f.compOK ks o j then continue
-            let m := if u.leafOuts.isSome then (f.post ks o j).eval f64Ops env else (u.out j).eval f64Ops env
-            let s := (f.spec ks j).eval f64Ops env
+            if !f.treeMode && !f.guard && f.compOK ks o j then continue
+            let m := if f.treeMode then (u.out j).eval f64Ops env
+                     else if u.leafOuts.isSome then (f.post ks o j).eval f64Ops env else (u.out j).eval f64Ops env
+            let s := if f.treeMode then (f.specT ks j).eval f64Ops env else (f.spec ks j).eval f64Ops env
             if !(m == s) && !(m.isNaN && s.isNaN) then
               found := true
               cex := cex + 1
